@@ -551,7 +551,12 @@ class FakeSam:
         return True
 
     def fetch(self, region=None):
-        return iter(self.reads)
+        if region is None:
+            return iter(self.reads)
+        # an indexed file returns the reads of the requested contig only
+        chrom = str(region).split(":")[0]
+        chrom = chrom[3:] if chrom.startswith("chr") else chrom
+        return iter([r for r in self.reads if str(r.reference_name) == chrom])
 
 
 def run_eligible(cfg):
@@ -562,15 +567,19 @@ def run_eligible(cfg):
     gene = gengene.load("GA", "hg19")
     flags = {k: z3.Bool(k) for k in ("unmapped", "supp", "hard", "empty", "otherchr",
                                      "offlocus", "secondary", "duplicate")}
+    hard_at = z3.Int("hard_clip_position")  # 0 leading, 1 trailing, 2 both ends
     start = min(gene.chr_to_ref) + 20
 
     def run():
         f = {k: eng.branch(v) for k, v in flags.items()}
         st_ = 10 ** 6 if f["offlocus"] else start
         seq = gene[start:start + 4]
-        cig = [(5, 2), (0, 4)] if f["hard"] else [(0, 4)]
+        where = eng.choose(hard_at, range(3)) if f["hard"] else None
+        cig = {None: [(0, 4)], 0: [(5, 2), (0, 4)], 1: [(0, 4), (5, 2)],
+               2: [(5, 2), (0, 4), (5, 1)]}[where]
+        f = dict(f, hard_where={None: "", 0: "leading", 1: "trailing", 2: "both"}[where])
         r = FakeRead(cigartuples=None if f["unmapped"] else cig,
-                     cigarstring="2H4M" if f["hard"] else "4M",
+                     cigarstring={None: "4M", 0: "2H4M", 1: "4M2H", 2: "2H4M1H"}[where],
                      is_supplementary=f["supp"], is_secondary=f["secondary"],
                      is_duplicate=f["duplicate"],
                      query_sequence="" if f["empty"] else seq, query_name="r",
@@ -598,9 +607,10 @@ def run_eligible(cfg):
            else "sat")
         if not good:
             res["violations"].append({
-                "what": f"read with flags {[k for k, v in f.items() if v]} contributes {n} "
+                "what": f"read with flags {[k if v is True else v for k, v in f.items() if v]} contributes {n} "
                         "observations", "key": "eligible:" + ",".join(
-                            k for k, v in f.items() if v), "replay": {"kind": "none"}})
+                            k for k, v in f.items() if v is True),
+                "replay": {"kind": "none"}})
     res["stats"] = dict(eng.stats)
     res["obligations"] = [{"label": o["label"], "status": o["status"], "secs": 0}
                           for o in res["obligations"]]
@@ -672,13 +682,21 @@ def run_walkers(cfg):
                      for r, rng in gr.items()}
             pdata = prof_mod.Profile.get_sam_profile_data(
                 "x.bam", regions=gregs, cn_region=region, genome=gene.genome)
+            # a neutral region on another contig with the same coordinates: none of these
+            # reads lies there
+            other = "1" if gene.chr != "1" else "2"
+            odata = prof_mod.Profile.get_sam_profile_data(
+                "x.bam", regions=gregs, cn_region=GRange(other, region.start, region.end),
+                genome=gene.genome)
+            other_ok = (float(odata["neutral"]["value"]) == 0.0 and all(
+                odata[gene.name][r] == pdata[gene.name][r] for r in pdata[gene.name]))
             with tempfile.NamedTemporaryFile("w", suffix=".yml", delete=False) as f:
                 yaml.safe_dump(pdata, f)
             try:
                 lp = prof_mod.Profile.load(gene, f.name)
             finally:
                 os.unlink(f.name)
-            route = (tuple(lp.cn_region) == tuple(region)
+            route = (other_ok and tuple(lp.cn_region) == tuple(region)
                      and float(lp.neutral_value) == float(sum(cnv.values()))
                      and all(float(lp.data[gene.name][r][gi]) == float(sum(
                          d1.get(p, 0) for p in range(rng.start, rng.end) if p in d1))
